@@ -97,7 +97,22 @@ def sweeps(tier):
                         cases.append({'frontend': fe, 'framing': 'tcp' if fe != 'sync_serial' else 'rtu', 'single': False, 'hosted': hosted,
                                       'ignore_missing_slaves': ign, 'broadcast_enable': bc,
                                       'steps': [{'uid': uid, 'kind': 'req:6', 'fields': {'address': 3, 'value': 0x1234}}]})
-    return [('unit-ids-x-hosted-shapes-x-flags (all 256 ids in thorough)', cases, tier == 'thorough')]
+    out = [('unit-ids-x-hosted-shapes-x-flags (all 256 ids in thorough)', cases, tier == 'thorough')]
+    # a broadcast write that covers a whole table, followed by unicast writes: the units must stay independent of each other
+    more = []
+    for fe in frontends.ALL:
+        if not frontends.HAS_BROADCAST[fe]:
+            continue
+        for n in (6, 21, 40):
+            for kind, whole, single_w in (('req:16', {'address': 0, 'registers': [7] * n}, ('req:6', {'address': 0, 'value': 9})),
+                                          ('req:15', {'address': 0, 'bits': [True] * n}, ('req:5', {'address': 1, 'value': 0}))):
+                more.append({'frontend': fe, 'framing': 'tcp' if fe != 'sync_serial' else 'rtu', 'single': False, 'hosted': [1, 2, 3],
+                             'ignore_missing_slaves': False, 'broadcast_enable': True, 'sizes': [n, n, n],
+                             'steps': [{'uid': 0, 'kind': kind, 'fields': whole}, {'uid': 2, 'kind': single_w[0], 'fields': single_w[1]},
+                                       {'uid': 0, 'kind': single_w[0], 'fields': dict(single_w[1], address=2)},
+                                       {'uid': 3, 'kind': single_w[0], 'fields': dict(single_w[1], address=3)}]})
+    out.append(('whole-table-broadcast-then-unicast-writes', more, False))
+    return out
 
 
 def _fingerprint(m):
